@@ -342,6 +342,14 @@ func (r *FileRestorer) updateImports() error {
 			continue
 		}
 
+		if path == "C" {
+			// the cgo pseudo-package is never resolved or renamed. Without this, findAlias starts
+			// from the empty name, which collides with the empty name recorded for a dot-import or
+			// anonymous import sorted before "C", and yields a numeric alias.
+			r.packageNames[path], aliases[path] = "C", ""
+			continue
+		}
+
 		// regular imports have a unique name chosen.
 		r.packageNames[path], aliases[path] = findAlias(path, alias)
 	}
